@@ -65,6 +65,26 @@ R = {
  "C09-m6": ("caught after strengthening", "no-accept-reply, verdict-count", "as for C08-m5: every second world now has a production-configured node and a version-0 offerer without version entry."),
  "C10-m5": ("caught after strengthening", "lookup-never-finishes:refresh-at-stop", "only lookups started by the monitor were driven; part C stops a node while its table's own refresh lookup has a query in flight."),
  "C10-m6": ("caught after strengthening", "nodes-lookup-omits-closest-seen-node", "node lookups over the network were judged structurally only and every listed record was admitted to the table; part C lists validly signed records that share one public /24 (the table declines most) and compares the result with the 16 closest of everything the lookup saw."),
+ "C11-m5": ("caught", "responder:record-with-unchecked-new-endpoint-offered", "quick tier as built now (same change as C18-m1 / close to C11-m3; the moved-endpoint worlds added after round 2 reach it)"),
+ "C11-m6": ("caught after strengthening", "responder:startup-node-offered-before-any-answer", "tables were always filled by the monitor or by traffic; start-up seed worlds now configure bootstrap nodes (one of them non-existent) and ask at once, with the monitor's own record of the endpoints the node ever heard from as ground truth."),
+ "C12-m5": ("caught after strengthening", "verify-accepts:signature:optimistic, verify-accepts:signature:full", "every slot of the synthetic worlds lay in one fork era; the fork version of the signing domain is now slot-dependent, one in five histories starts before a fork boundary and crosses it, and updates that straddle it are also signed under the attested slot's fork."),
+ "C12-m6": ("caught after strengthening", "sync:store-holds-committee-of-another-period:next", "Sync was called once per client; every fourth honest script now loses its first attempt to a transient fault after the period updates were applied and calls Sync again, and after honest scripts the committees the store holds are compared with the ones of its period."),
+ "C13-m5": ("caught after strengthening", "network-accepts-invalid:offered-onward:bytecode:key-already-held", "the check re-implemented the network's validate-then-store wiring; a subset of the pairs now goes through the real state.Network content loop on a real protocol instance, acceptance observed as gossip arriving at a scripted peer."),
+ "C13-m6": ("caught after strengthening", "network-accepts-invalid:offered-onward:account-node:key-already-held", "as for C13-m5; the network path also re-offers keys that are already stored with invalid proofs."),
+ "C14-m5": ("caught after strengthening", "roundtrip-reject:CONTENT-union:content:empty-value, roundtrip-reject:CONTENT-union:enrs:empty-list (C14); held-content-not-delivered:inline:v0|v1 (C08, as built)", "C08 caught it as built; C14 only drove the generated codecs. The hand-written CONTENT union now round-trips through handleFindContent / processContent on a real node for stored values of every inline length from 0 and ENR lists of 0..6 records."),
+ "C14-m6": ("caught", "roundtrip-reject:beacon.ForkedLightClientFinalityUpdate/electra:nonempty-encoding", "quick tier as built (same change as C14-m4, found again independently)"),
+ "C15-m5": ("caught", "accept-malformed:trunc", "quick tier as built"),
+ "C15-m6": ("caught", "single-accept-inexact, accept-malformed:overflow", "quick tier as built (same change as C15-m1 / C15-m3, found again independently)"),
+ "C16-m5": ("caught", "slot-not-returned:outbound:stop:gossip-calls-around-and-after-stop, slot-not-returned:outbound:stop:offers-queued-and-in-progress", "quick tier as built at the time of the run (stop scenarios); the gossip-around-Stop scenario was added in this round for a genuine defect of the pinned tree"),
+ "C16-m6": ("caught after strengthening", "more-transfers-than-limit:assembled-node", "every scenario built the uTP service directly; a node is now assembled and started by portal.NewNode (loopback sockets) for configured limits 0, 1, 3, 50 and the slots obtainable through its own service are counted (hook: accessors on portal.Node)."),
+ "C17-m5": ("caught", "usage-under-reported", "quick tier as built (same change as C17-m3, found again independently)"),
+ "C17-m6": ("caught after strengthening", "radius-metric:retained-outside-radius (C06)", "C17 itself rightly stays silent: the change makes the open path derive the radius from the farthest retained item in the big-endian reading the statement implies, and C17's recorded known finding disappears under it. What it breaks is the agreement between that radius and admission (C06): C06's put histories now contain restarts, with the recorded defect model extended to the open path, and the trace under this change is neither the correct model's nor the recorded defect's."),
+ "C18-m5": ("caught after strengthening", "policy:track-fail:fruitless-queries-miscounted:concurrent-reports", "lookup feedback was only reported serially; K goroutines now report F failures each for an entry whose bucket is below the four entries that permit removal, and the table's count must be exactly K*F, reset by one success, with removal exactly at the fifth consecutive failure in a bucket of four."),
+ "C18-m6": ("caught after strengthening", "policy:ping-reply:credit:long-lived", "no history gave one entry more than a few dozen answered checks; long-lived histories (three nodes, thousands of steps, one in 400 checks unanswered) reach credit above 400, under the same step-by-step demand that credit goes up on every answer."),
+ "C19-m5": ("caught after strengthening", "e2e:offer-failed:older-record-in-table, e2e:findcontent-failed:older-record-in-table (C19); different-bytes:utp:stale-table-record (C08, as built)", "same change as C08-m3, found again independently; C08 caught it as built, C19's pairings now also run with older records (other version lists) in both tables."),
+ "C19-m6": ("caught after strengthening", "e2e:offer-error-instead-of-decline:receiver-without-free-slot (C19); verdict-count (C09, as built)", "C09 caught it as built; C19's directed group now offers a mix of held and wanted keys to a receiver without a free slot in every pairing and demands a well-formed decline."),
+ "C20-m5": ("caught", "covered-omitted-with-at-most-4-candidates, close-covered-omitted", "quick tier as built"),
+ "C20-m6": ("caught after strengthening", "radius-not-most-recent:earlier-ping-overwrote-later-pong:slow-record-refresh", "reports never coincided with a pending record refresh; a directed schedule now has the peer announce an ENR sequence ahead of the node's record, leave the record request unanswered, and send its PING before the delayed PONG to the node's own outstanding ping."),
  # round 1, decided later
  "C17-m1": ("caught after strengthening", "usage-under-reported", "crash points lay only between file-system operations; torn-write images (a prefix of the last write survives) were added."),
  "C17-m2": ("caught", "usage-under-reported", "quick tier as built (re-run)"),
